@@ -43,15 +43,44 @@ Status (after the independent review, docs/REVIEW.md)
   radio, (c) the acknowledged double-check lookup) as hypotheses **about the one state the run
   produces**; both hypotheses are instantiated on `joinEx` (kernel evaluation for the request loop,
   compiled evaluation `#guard` for the whole `_request_address(0)` / `renew_address(1500)`).
+* closed system, **two nodes** (master + one node already connected at a child address of the master),
+  loss-free, ONE schedule — last two sections of this file, invariant `Conn` (NrfProofs/C17Lookup3.lean),
+  every hypothesis instantiated on the concrete network `lookEx` (NrfProofs/C17Lookup4.lean):
+  - `C17_master_lookup_closed` (the master's whole `update()` on a received lookup frame; any number of nodes),
+    `C17_lookup_address_closed`, `C17_lookup_node_id_closed`: **lookups end to end** — the call returns exactly
+    the master's current mapping (`tableAddress` / `tableNodeId`, −2 when unassigned), `Conn` holds again,
+    the master's node object differs in `frame_buf` only ("asking never disturbs the master");
+  - `C17_check_connection_closed_partial`: `check_connection(attempts, ping_master=True)` is `True` iff
+    `attempts ≥ 1` and the master's table maps the node's ID to the address the node holds, for every number
+    of attempts; `C17_check_connection_ping_closed_partial`: with `ping_master=False` (the default) the call of
+    a node directly below the master is `True` at the first attempt **whatever the master's table holds**
+    (the parent's radio acknowledges the NETWORK_PING; the master does not run) — instance: `True` on
+    `lookExLost`, where the master has no lease for the node (both partial: no `False` outcome by loss /
+    absent parent, no node below level 1);
+  - `C17_release_write_closed`, `C17_release_master_closed`, `C17_release_master_turn_closed` and
+    `C17_release_closed_partial`: `release_address()` returns `True`, the node is back at 0o4444 and the
+    master's next `update()` removes exactly the lease on the node's address (no lease for its ID left) —
+    **given** `_begin(0o4444)` on the radio as a hypothesis about the run's own state (discharged on `lookEx`
+    by kernel evaluation);
+  - `C17_send_by_id_closed_partial` + `C17_send_queued_closed`: **a message sent to the node ID arrives** —
+    `send(i, t, msg)` at the *master* (ID → address from its own table, no transmission) returns `True`, the
+    frame is on pipe 5 of the node holding the lease, whose next `update()` queues exactly it (single frame
+    ≤ 24 bytes, user types 0..127; `send()` from a non-master node is not covered); chained on `sendEx`.
 * no theorem at all (tie-only, `harness/props/c17.py`): the timeout bound of `renew_address`, delivery
-  of a message sent to the node ID, lookups / release end to end for a connected asker,
-  `check_connection()` ⇔ connected, more than two nodes, concurrent joiners, any other schedule.
+  of a message sent to the node ID by a *non-master* node (lookup exchange + routed write), `_begin(a)`
+  on the radio (open leg of the join and of the release), lookups / release / `check_connection` for
+  nodes below level 1 (relayed, NETWORK_ACK awaited), the `-1` ("no answer") outcome end to end (master
+  not running, loss), more than two nodes, concurrent joiners, any other schedule.
 -/
 import NrfProofs.MeshJoinK
 import NrfProofs.C17JoinExample
 import NrfProofs.C17Join2Comp
 import NrfProofs.PySetK
 import NrfProofs.C17SendBound
+import NrfProofs.C17Lookup5
+import NrfProofs.C17Release2
+import NrfProofs.C17Ping
+import NrfProofs.C17Send
 import NrfProps.C16
 
 namespace Nrf.Props.C17
@@ -221,8 +250,9 @@ example : TableSmall ([] : Mesh.Table) := C17_table_small Nrf.Proofs.Lease.inv_n
     `lookup_node_id` return exactly the value of the spec's `MeshProtocol.lookupAddress` /
     `lookupNodeId` (NrfModel/Spec/MeshProtocol.lean) for the node's role, its table and the argument,
     whatever `reply` is, and the state is unchanged.  (For a *connected* asker the spec's value is a
-    function of the reply body; that the reply is the master's table answer is not composed in Lean:
-    `C17_lookup_exchange` and `C17_lookup_master` are the two ends.) -/
+    function of the reply body; `C17_lookup_exchange` and `C17_lookup_master` are the two ends for every
+    state; that the reply is the master's table answer is composed for the two-node closed system in
+    `C17_lookup_address_closed` / `C17_lookup_node_id_closed` at the end of this file.) -/
 theorem C17_lookup_spec (s : NetState) :
     (∀ (nodeId : Nat) (reply : Option Bytes), nodeId = 0 ∨ roleAddr (curNode s) ≠ .connected →
       nexec (meshLookupAddress (nodeId : Int)) s =
@@ -1352,5 +1382,533 @@ the full call — `renew_address(1500)` on `joinEx` is `.ok (some 0o5)` with the
 #guard (match (Nrf.Net.nexec (requestAddress 0) joinEx).1 with | .ok true => true | _ => false)
 #guard (match Nrf.Net.nexec (meshRenew 1500) joinEx with
   | (.ok (some 5), s') => (s'.nodeAt 0).dhcp == [(7, 5)] && s'.node.a.addr == 5 | _ => false)
+
+end Nrf.Props.C17
+
+/-! ## lookups and `check_connection()` of a connected node, end to end in the closed system
+
+Two nodes, loss-free, the closed `runOthers` system (ONE deterministic schedule: the master runs `update()`
+to completion at the asker's next `read()`): the master `m` and a mesh node `x` connected at a child
+address `ax` of the master.  `Conn L Pm Px m x px ax Am Ax s` (NrfProofs/C17Lookup3.lean) is the state of
+that system between two API calls of `x`: `x` on the call stack and nobody else, both radios listening on
+their own six addresses (`NodeRadio … true true 0x3E`) with empty RX FIFOs, no scripted arrivals, no
+scripted fault, no third radio in receive mode, `x` with a non-zero ID, `ret_sys_msg` set and address
+`ax` (valid, ≠ 0, ≠ 0o4444, reaching the master through pipe `px` of the master), the master of class
+RF24Mesh with ID 0, address 0, `_do_dhcp` clear, a table whose entries fit 16 signed bits, reaching `ax`
+through pipe 5 of `x`; `nextId < 65536`.  Every theorem below **re-establishes `Conn`** (so calls can be
+chained) and states that the master's node object changed in `frame_buf` only.
+
+The exchange (model and real code: `net 2 1 new m master 0 0 ; new x mesh 1 7 ; x renew 1500 ;
+x lookup_address 7`): `x` `_write(0, TX_NORMAL)` — one hop, acknowledged at link level, to the master's
+pipe `px`; the master's `update()` turns the frame around with the signed 16-bit table answer and
+`_write(ax, TX_NORMAL)` — one acknowledged hop to pipe 5 of `x`; the first `_net_update()` of `x`'s waiting
+loop returns 196 / 198; the decoder returns the table's answer.
+
+Hypotheses `hdupm` / `hdupx` are the radio-level non-duplicate conditions: the last packet each radio
+accepted is not byte-identical with the one about to arrive (defect f088c9e was exactly that; with the
+per-call frame id two consecutive lookups differ — `lastRx` after the call is exported for chaining).
+-/
+
+namespace Nrf.Props.C17
+open Nrf Nrf.Net Nrf.Spec Nrf.Proofs Nrf.Net.Join
+
+/-- **C17, closed system: the master answers a lookup frame it has received** (any number of nodes, all
+    others on the call stack).  The master — RF24Mesh, ID 0, address 0, `_do_dhcp` clear, listening, a
+    table that fits 16 signed bits — finds a lookup frame (type 196 with ≥ 1 byte / 198 with ≥ 2 bytes,
+    from address `ax ≠ 0`) as the only payload in its RX FIFO.  `update()` returns the lookup type; the
+    answer (the frame turned around, body = `replyBytes` of the table's answer `lookVal`) has been
+    transmitted in one acknowledged hop to pipe 5 of the asker `x`, whose radio has stored it (and no
+    other radio changed); **the master's node object is `answered …`: only `frame_buf` (and the radio
+    object) differ — table, `_do_dhcp`, ID, address untouched**; the master listens again, RX FIFO
+    empty. -/
+theorem C17_master_lookup_closed (f : Nat) (sm : NetState) (L : LinkCfg) (Pm Px : List Bytes) (x p fid ax ty : Nat)
+    (body Ax pk pk' : Bytes)
+    (hcur : sm.cur < sm.nodes.length) (hclosed : sm.closed = true)
+    (hfuel : sm.nodes.length + 2 ≤ f) (hquiet : Quiet sm) (hWf : sm.drv.Wf)
+    (hN : NodeRadio L Pm true true 0x3E sm.node.rf sm.drv.radio)
+    (hrid : ∀ k, k < sm.nodes.length → k ≠ sm.cur → sm.ridAt k ≠ sm.ridAt sm.cur)
+    (harr : sm.node.arrivals = []) (hfifo : sm.drv.radio.rxFifo = [{ pipe := p, data := pk }]) (hp : p ≤ 5)
+    (hfaults : sm.w.faults = [])
+    (hx : x < sm.nodes.length) (hxc : x ≠ sm.cur)
+    (hNx : NodeRadio L Px true true 0x3E (sm.nodeAt x).rf (sm.radioAt x))
+    (hroom : (sm.radioAt x).rxFifo.length < 3)
+    (hdupx : ∀ pid, (sm.radioAt x).lastRx ≠ some { pid := pid, addr := Ax, data := pk' })
+    (hothers : ∀ i, i ≠ sm.ridAt sm.cur → i ≠ sm.ridAt x → (sm.w.radio i).rxMode = false)
+    (hpk : (lookFrame fid ax ty body).pack = .ok pk)
+    (hty : ty = MESH_ADDR_LOOKUP ∨ ty = MESH_ID_LOOKUP)
+    (hlong : Mesh.lookupLongEnough ty body = true) (hbody : body.length ≤ MAX_FRAG_SIZE)
+    (hax : ax < 4096) (hfid : fid < 65536) (haxv : isValid ax = true) (hax0 : ax ≠ 0)
+    (hkind : sm.node.kind = .meshMaster) (hid : sm.node.nodeId = 0) (haddr0 : sm.node.a.addr = 0)
+    (hret : sm.node.retSysMsg = true) (hdo : sm.node.doDhcp = false)
+    (hsmall : Nrf.Proofs.MeshK.TableSmall sm.node.dhcp)
+    (hl2p : logi2phys sm.node.a ax TX_NORMAL = (ax, 5, false))
+    (hA : pipeAddress sm.node.cfg ax 5 = .ok Ax) (hAx : Px[5]? = some Ax)
+    (hlt : ∀ q, q < 5 → Px[q]? ≠ some Ax)
+    (hpk' : (lookReply fid ax ty (MeshProtocol.replyBytes (lookVal sm.node fid ax ty body))).pack = .ok pk') :
+    ∃ D1 D2 : DrvState,
+      Nrf.Net.nexec (nodeUpdate (f + 4)) sm =
+        (.ok ty, ((sm.afterRf D1).putNode (answered sm.node D1.d fid ax ty body)).afterRf D2) ∧
+      (answered sm.node D1.d fid ax ty body).dhcp = sm.node.dhcp ∧
+      (answered sm.node D1.d fid ax ty body).doDhcp = sm.node.doDhcp ∧
+      MeshProtocol.replyValue (answered sm.node D1.d fid ax ty body).frameBuf.message = lookVal sm.node fid ax ty body ∧
+      DrvFrame sm.drv D1 ∧ D1.radio.rxFifo = [] ∧
+      D2.d.rid = sm.node.rf.rid ∧ D2.w.radios.length = sm.w.radios.length ∧ D2.w.faults = [] ∧
+      NodeRadio L Pm true true 0x3E D2.d D2.radio ∧ D2.radio.rxFifo = [] ∧
+      D2.radio.lastRx = sm.drv.radio.lastRx ∧
+      (∃ pid, D2.w.radio (sm.ridAt x) =
+        { (sm.radioAt x) with rxFifo := (sm.radioAt x).rxFifo ++ [{ pipe := 5, data := pk' }],
+                              flags := (sm.radioAt x).flags ||| 0x40, rpd := true,
+                              lastRx := some { pid := pid, addr := Ax, data := pk' }, lastAck := none }) ∧
+      (∀ i, i ≠ sm.ridAt sm.cur → i ≠ sm.ridAt x → D2.w.radio i = sm.w.radio i) := by
+  obtain ⟨D1, D2, h1, h2, h3, h4, h5, h6, h7, h8, h9, h10, h11⟩ := master_lookup f sm L Pm Px x p fid ax ty body Ax pk pk'
+    hcur hclosed hfuel hquiet hWf hN hrid harr hfifo hp hfaults hx hxc hNx hroom hdupx hothers hpk hty hlong hbody
+    hax hfid haxv hax0 hkind hid haddr0 hret hdo hsmall hl2p hA hAx hlt hpk'
+  exact ⟨D1, D2, h1, rfl, rfl, Nrf.Proofs.MeshK.replyValue_replyBytes (lookVal_range _ _ _ _ _ hsmall),
+    h2, h3, h4, h5, h6, h7, h8, h9, h10, h11⟩
+
+/-- what `lookVal` is: the table's answer as `C17_lookup_master`'s `lookupAnswer` defines it; for
+    `lookup_address(id)` / `lookup_node_id(a)` bodies on a master holding address 0 it is the spec's
+    `tableAddress` / `tableNodeId` -/
+example (n : Node) (fid ax id a : Nat) (h0 : n.a.addr = 0) (hid : id ≠ 0) (ha : a ≠ 0) :
+    lookVal n fid ax MESH_ADDR_LOOKUP [id] = MeshProtocol.tableAddress n.dhcp id ∧
+    lookVal n fid ax MESH_ID_LOOKUP [a % 256, a / 256] = MeshProtocol.tableNodeId n.dhcp a :=
+  ⟨lookVal_addr n fid ax id h0 hid, lookVal_id n fid ax a h0 ha⟩
+
+/-- **C17, closed system: `lookup_address(id)` of a connected node, end to end** (two nodes, loss-free,
+    ONE schedule).  For `0 < id < 256`, from a state satisfying `Conn` and the two non-duplicate
+    conditions: the call returns **exactly the master's current mapping** `tableAddress t id` — the
+    leased address, or `-2` when the table has no entry for `id` —; afterwards `Conn` holds again and
+    **the master's node object differs in `frame_buf` only** (asking never disturbs the master: table,
+    `_do_dhcp`, ID, address, queue unchanged); `x`'s node object differs in `frame_buf` only; one header
+    id was consumed; each radio's last accepted packet is the frame it received (for chaining). -/
+theorem C17_lookup_address_closed (s : NetState) (L : LinkCfg) (Pm Px : List Bytes) (m x px ax : Nat) (Am Ax : Bytes)
+    (id : Nat) (C : Conn L Pm Px m x px ax Am Ax s) (hid0 : id ≠ 0) (hid : id < 256)
+    (hdupm : ∀ pid d, (s.radioAt m).lastRx = some { pid := pid, addr := Am, data := d } →
+      (lookFrame s.nextId ax MESH_ADDR_LOOKUP [id]).pack ≠ .ok d)
+    (hdupx : ∀ pid d, (s.radioAt x).lastRx = some { pid := pid, addr := Ax, data := d } →
+      (lookReply s.nextId ax MESH_ADDR_LOOKUP
+        (MeshProtocol.replyBytes (MeshProtocol.tableAddress (s.nodeAt m).dhcp id))).pack ≠ .ok d) :
+    ∃ s2 : NetState,
+      Nrf.Net.nexec (meshLookupAddress (id : Int)) s = (.ok (MeshProtocol.tableAddress (s.nodeAt m).dhcp id), s2) ∧
+      Conn L Pm Px m x px ax Am Ax s2 ∧
+      (s2.nodeAt m).body = { (s.nodeAt m).body with frameBuf := (lookReply s.nextId ax MESH_ADDR_LOOKUP
+        (MeshProtocol.replyBytes (MeshProtocol.tableAddress (s.nodeAt m).dhcp id))) } ∧
+      (s2.nodeAt x).body = { (s.nodeAt x).body with frameBuf := (lookReply s.nextId ax MESH_ADDR_LOOKUP
+        (MeshProtocol.replyBytes (MeshProtocol.tableAddress (s.nodeAt m).dhcp id))) } ∧
+      s2.nextId = (s.nextId + 1) &&& 0xFFFF ∧
+      (∃ pid1 pid2 pk pk', (lookFrame s.nextId ax MESH_ADDR_LOOKUP [id]).pack = .ok pk ∧
+        (lookReply s.nextId ax MESH_ADDR_LOOKUP
+          (MeshProtocol.replyBytes (MeshProtocol.tableAddress (s.nodeAt m).dhcp id))).pack = .ok pk' ∧
+        (s2.radioAt m).lastRx = some { pid := pid1, addr := Am, data := pk } ∧
+        (s2.radioAt x).lastRx = some { pid := pid2, addr := Ax, data := pk' }) :=
+  lookup_address_closed s L Pm Px m x px ax Am Ax id C hid0 hid hdupm hdupx
+
+/-- every hypothesis holds on the concrete network `lookEx` (master with table `[7 ↦ 0o1, 9 ↦ 0o4]`, the
+    mesh node with ID 7 connected at 0o1): there `lookup_address(9)` is 0o4, `lookup_address(7)` is 0o1
+    and `lookup_address(8)` is −2, the master's table unchanged -/
+example : (∃ s2, Nrf.Net.nexec (meshLookupAddress 9) lookEx = (.ok 4, s2) ∧ (s2.nodeAt 0).dhcp = [(7, 1), (9, 4)]) ∧
+    (∃ s2, Nrf.Net.nexec (meshLookupAddress 7) lookEx = (.ok 1, s2)) ∧
+    (∃ s2, Nrf.Net.nexec (meshLookupAddress 8) lookEx = (.ok (-2), s2)) := by
+  have hm : ∀ pid d, (lookEx.radioAt 0).lastRx = some { pid := pid, addr := [60, 204, 204, 204, 204], data := d } →
+      False := by
+    intro pid d h; rw [show (lookEx.radioAt 0).lastRx = none from rfl] at h; cases h
+  have hx : ∀ pid d, (lookEx.radioAt 1).lastRx = some { pid := pid, addr := [227, 60, 204, 204, 204], data := d } →
+      False := by
+    intro pid d h; rw [show (lookEx.radioAt 1).lastRx = none from rfl] at h; cases h
+  refine ⟨?_, ?_, ?_⟩
+  · obtain ⟨s2, e, _, bm, _⟩ := C17_lookup_address_closed lookEx Example.L Example.P0 Example.P1 0 1 1 1 _ _ 9
+      lookEx_conn (by decide) (by decide) (fun pid d h => (hm pid d h).elim) (fun pid d h => (hx pid d h).elim)
+    refine ⟨s2, e, ?_⟩
+    have : (s2.nodeAt 0).dhcp = (s2.nodeAt 0).body.dhcp := rfl
+    rw [this, bm]; rfl
+  · obtain ⟨s2, e, _⟩ := C17_lookup_address_closed lookEx Example.L Example.P0 Example.P1 0 1 1 1 _ _ 7
+      lookEx_conn (by decide) (by decide) (fun pid d h => (hm pid d h).elim) (fun pid d h => (hx pid d h).elim)
+    exact ⟨s2, e⟩
+  · obtain ⟨s2, e, _⟩ := C17_lookup_address_closed lookEx Example.L Example.P0 Example.P1 0 1 1 1 _ _ 8
+      lookEx_conn (by decide) (by decide) (fun pid d h => (hm pid d h).elim) (fun pid d h => (hx pid d h).elim)
+    exact ⟨s2, e⟩
+
+/-- **C17, closed system: `lookup_node_id(a)` of a connected node, end to end** (two nodes, loss-free, ONE
+    schedule).  For `0 < a < 65536`: the call returns **exactly the master's current mapping**
+    `tableNodeId t a` — the ID holding `a`, or `-2` when none does —; `Conn` holds again; both node
+    objects differ in `frame_buf` only (the master's table is unchanged). -/
+theorem C17_lookup_node_id_closed (s : NetState) (L : LinkCfg) (Pm Px : List Bytes) (m x px ax : Nat) (Am Ax : Bytes)
+    (a : Nat) (C : Conn L Pm Px m x px ax Am Ax s) (ha0 : a ≠ 0) (ha : a < 65536)
+    (hdupm : ∀ pid d, (s.radioAt m).lastRx = some { pid := pid, addr := Am, data := d } →
+      (lookFrame s.nextId ax MESH_ID_LOOKUP [a % 256, a / 256]).pack ≠ .ok d)
+    (hdupx : ∀ pid d, (s.radioAt x).lastRx = some { pid := pid, addr := Ax, data := d } →
+      (lookReply s.nextId ax MESH_ID_LOOKUP
+        (MeshProtocol.replyBytes (MeshProtocol.tableNodeId (s.nodeAt m).dhcp a))).pack ≠ .ok d) :
+    ∃ s2 : NetState,
+      Nrf.Net.nexec (meshLookupNodeId (some (a : Int))) s = (.ok (MeshProtocol.tableNodeId (s.nodeAt m).dhcp a), s2) ∧
+      Conn L Pm Px m x px ax Am Ax s2 ∧
+      (s2.nodeAt m).body = { (s.nodeAt m).body with frameBuf := (lookReply s.nextId ax MESH_ID_LOOKUP
+        (MeshProtocol.replyBytes (MeshProtocol.tableNodeId (s.nodeAt m).dhcp a))) } ∧
+      (s2.nodeAt x).body = { (s.nodeAt x).body with frameBuf := (lookReply s.nextId ax MESH_ID_LOOKUP
+        (MeshProtocol.replyBytes (MeshProtocol.tableNodeId (s.nodeAt m).dhcp a))) } ∧
+      s2.nextId = (s.nextId + 1) &&& 0xFFFF :=
+  lookup_node_id_closed s L Pm Px m x px ax Am Ax a C ha0 ha hdupm hdupx
+
+/-- on `lookEx`: `lookup_node_id(0o4)` is 9, `lookup_node_id(0o3)` is −2 -/
+example : (∃ s2, Nrf.Net.nexec (meshLookupNodeId (some 4)) lookEx = (.ok 9, s2)) ∧
+    (∃ s2, Nrf.Net.nexec (meshLookupNodeId (some 3)) lookEx = (.ok (-2), s2)) := by
+  have hm : ∀ pid d, (lookEx.radioAt 0).lastRx = some { pid := pid, addr := [60, 204, 204, 204, 204], data := d } →
+      False := by
+    intro pid d h; rw [show (lookEx.radioAt 0).lastRx = none from rfl] at h; cases h
+  have hx : ∀ pid d, (lookEx.radioAt 1).lastRx = some { pid := pid, addr := [227, 60, 204, 204, 204], data := d } →
+      False := by
+    intro pid d h; rw [show (lookEx.radioAt 1).lastRx = none from rfl] at h; cases h
+  refine ⟨?_, ?_⟩
+  · obtain ⟨s2, e, _⟩ := C17_lookup_node_id_closed lookEx Example.L Example.P0 Example.P1 0 1 1 1 _ _ 4
+      lookEx_conn (by decide) (by decide) (fun pid d h => (hm pid d h).elim) (fun pid d h => (hx pid d h).elim)
+    exact ⟨s2, e⟩
+  · obtain ⟨s2, e, _⟩ := C17_lookup_node_id_closed lookEx Example.L Example.P0 Example.P1 0 1 1 1 _ _ 3
+      lookEx_conn (by decide) (by decide) (fun pid d h => (hm pid d h).elim) (fun pid d h => (hx pid d h).elim)
+    exact ⟨s2, e⟩
+
+/-- **C17, closed system: `check_connection(attempts, ping_master=True)` of a connected node, partial**
+    (two nodes, loss-free, ONE schedule; `x` has ID `i` and believes it holds `ax`).  For **every** number
+    of attempts the call returns **`True` iff `attempts ≥ 1` and the master's table maps `i` to `ax`** (the
+    master holds the lease `x` believes it has): `True` at the first attempt then; `False` at the first
+    attempt when the table has no lease for `i` (the lookup answers −2); and when the table maps `i` to
+    another address every attempt asks again — each lookup carries a new frame id, so no reply is dropped
+    as a radio-level duplicate — and the call returns `False` after the last one.  Afterwards `Conn`
+    holds again and the master's table is unchanged.  Partial with respect to the property because
+    **`ping_master=False` (the default: a NETWORK_PING written to the parent) is not covered** — only its
+    control flow is (`C17_check_connection`, last conjunct) —, nor are lost packets, a master that is
+    not running, or nodes below level 1. -/
+theorem C17_check_connection_closed_partial (s : NetState) (L : LinkCfg) (Pm Px : List Bytes) (m x px ax : Nat)
+    (Am Ax : Bytes) (i k : Nat) (C : Conn L Pm Px m x px ax Am Ax s) (hi : (s.nodeAt x).nodeId = i) (hi8 : i < 256)
+    (hdupm : ∀ pid d, (s.radioAt m).lastRx = some { pid := pid, addr := Am, data := d } →
+      (lookFrame s.nextId ax MESH_ADDR_LOOKUP [i]).pack ≠ .ok d)
+    (hdupx : ∀ pid d, (s.radioAt x).lastRx = some { pid := pid, addr := Ax, data := d } →
+      (lookReply s.nextId ax MESH_ADDR_LOOKUP
+        (MeshProtocol.replyBytes (MeshProtocol.tableAddress (s.nodeAt m).dhcp i))).pack ≠ .ok d) :
+    ∃ s', Nrf.Net.nexec (meshCheckConnection k true) s =
+        (.ok (decide (0 < k ∧ MeshProtocol.tableAddress (s.nodeAt m).dhcp i = (ax : Int))), s') ∧
+      Conn L Pm Px m x px ax Am Ax s' ∧ (s'.nodeAt m).dhcp = (s.nodeAt m).dhcp :=
+  check_connection_all s L Pm Px m x px ax Am Ax i k C hi hi8 hdupm hdupx
+
+/-- all three cases are inhabited: on `lookEx` (the master holds `7 ↦ 0o1`) `check_connection(3, True)` of
+    node 7 is `True`; on `lookExLost` (the master's table without a lease for 7) it is `False`; on
+    `lookExMoved` (the master maps 7 to 0o2) it is `False` after three lookups -/
+example : (∃ s2, Nrf.Net.nexec (meshCheckConnection 3 true) lookEx = (.ok true, s2)) ∧
+    (∃ s2, Nrf.Net.nexec (meshCheckConnection 3 true) lookExLost = (.ok false, s2)) ∧
+    (∃ s2, Nrf.Net.nexec (meshCheckConnection 3 true) lookExMoved = (.ok false, s2)) := by
+  refine ⟨?_, ?_, ?_⟩
+  · obtain ⟨s2, e, _⟩ := C17_check_connection_closed_partial lookEx Example.L Example.P0 Example.P1 0 1 1 1 _ _ 7 3
+      lookEx_conn rfl (by decide)
+      (by intro pid d h; rw [show (lookEx.radioAt 0).lastRx = none from rfl] at h; cases h)
+      (by intro pid d h; rw [show (lookEx.radioAt 1).lastRx = none from rfl] at h; cases h)
+    exact ⟨s2, e⟩
+  · obtain ⟨s2, e, _⟩ := C17_check_connection_closed_partial lookExLost Example.L Example.P0 Example.P1 0 1 1 1 _ _ 7 3
+      lookExLost_conn rfl (by decide)
+      (by intro pid d h; rw [show (lookExLost.radioAt 0).lastRx = none from rfl] at h; cases h)
+      (by intro pid d h; rw [show (lookExLost.radioAt 1).lastRx = none from rfl] at h; cases h)
+    exact ⟨s2, e⟩
+  · obtain ⟨s2, e, _⟩ := C17_check_connection_closed_partial lookExMoved Example.L Example.P0 Example.P1 0 1 1 1 _ _ 7 3
+      lookExMoved_conn rfl (by decide)
+      (by intro pid d h; rw [show (lookExMoved.radioAt 0).lastRx = none from rfl] at h; cases h)
+      (by intro pid d h; rw [show (lookExMoved.radioAt 1).lastRx = none from rfl] at h; cases h)
+    exact ⟨s2, e⟩
+
+end Nrf.Props.C17
+
+namespace Nrf.Props.C17
+open Nrf Nrf.Net Nrf.Spec Nrf.Proofs Nrf.Net.Join
+
+/-- **C17, closed system: `check_connection(attempts ≥ 1, ping_master=False)` — the default mode — of a node
+    connected directly below the master, partial** (two nodes, loss-free, ONE schedule).  From a `Conn`
+    state in which the node's parent is address 0 and the master's radio did not just accept the very ping
+    packet: the NETWORK_PING frame (type 130, a new frame id, empty body) is written in one hop to the
+    master's pipe `px`, acknowledged at link level, and **the call returns `True` at the first attempt —
+    whatever the master's table holds**: the master does not run at all during the call (its node object is
+    unchanged; the ping waits in its RX FIFO and is swallowed by its next `update()`).  So in this mode
+    "`True`" means "the parent's radio acknowledges", not "the master holds my lease" — compare
+    `C17_check_connection_closed_partial` and the instance on `lookExLost` below.  Partial: the `False`
+    outcome (no acknowledgement: parent absent, loss) is outside the loss-free closed system; nodes below
+    level 1 (the ping is routed, a NETWORK_ACK awaited) are not covered. -/
+theorem C17_check_connection_ping_closed_partial (s : NetState) (L : LinkCfg) (Pm Px : List Bytes) (m x px ax : Nat)
+    (Am Ax : Bytes) (k : Nat) (C : Conn L Pm Px m x px ax Am Ax s)
+    (hpar : (s.nodeAt x).a.parent = 0)
+    (hdupm : NotDupFrame (s.radioAt m) (pingFrame s.nextId ax)) :
+    ∃ s2 pk pid, Nrf.Net.nexec (meshCheckConnection (k + 1) false) s = (.ok true, s2) ∧
+      s2.nodeAt m = s.nodeAt m ∧ s2.cur = x ∧ s2.active = [x] ∧
+      (pingFrame s.nextId ax).pack = .ok pk ∧
+      s2.radioAt m = (s.radioAt m).withRx [{ pipe := px, data := pk }] { pid := pid, addr := Am, data := pk } ∧
+      NodeRadio L Px true true 0x3E (s2.nodeAt x).rf (s2.radioAt x) ∧ (s2.radioAt x).rxFifo = [] :=
+  check_connection_ping_closed s L Pm Px m x px ax Am Ax k C hpar hdupm
+
+/-- the hypotheses hold on `lookEx` **and on `lookExLost`**: with the default `ping_master=False`,
+    `check_connection()` of node 7 is `True` even though the master's table holds no lease for ID 7 (with
+    `ping_master=True` it is `False` there: previous example) -/
+example : (∃ s2, Nrf.Net.nexec (meshCheckConnection 3 false) lookEx = (.ok true, s2)) ∧
+    (∃ s2, Nrf.Net.nexec (meshCheckConnection 3 false) lookExLost = (.ok true, s2) ∧
+      (s2.nodeAt 0).dhcp = [(9, 4)]) := by
+  refine ⟨?_, ?_⟩
+  · obtain ⟨s2, _, _, e, _⟩ := C17_check_connection_ping_closed_partial lookEx Example.L Example.P0 Example.P1 0 1 1 1 _ _ 2
+      lookEx_conn (by decide) (NotDupFrame.of_none rfl)
+    exact ⟨s2, e⟩
+  · obtain ⟨s2, _, _, e, hm, _⟩ := C17_check_connection_ping_closed_partial lookExLost Example.L Example.P0 Example.P1
+      0 1 1 1 _ _ 2 lookExLost_conn (by decide) (NotDupFrame.of_none rfl)
+    exact ⟨s2, e, by rw [hm]; rfl⟩
+
+end Nrf.Props.C17
+
+/-! ## `release_address()` of a connected node, end to end in the closed system
+
+Same two-node closed loss-free system (`Conn`).  The exchange: `x` builds the release frame in `frame_buf`
+(type 197, to 0, from `ax`, empty body; frame id and `reserved` are whatever `frame_buf` held — Python does
+not renew the header), `_write(0, TX_NORMAL)` — one acknowledged hop to the master's pipe `px` —, then
+`_begin(0o4444)`; the master frees the lease at its next `update()`.
+
+Proved: the write leg and the control flow down to `_begin` (`C17_release_write_closed`), the master's whole
+`update()` on the frame (`C17_release_master_closed`), the master's next top-level `update()` from the state
+the call leaves (`C17_release_master_turn_closed`).  **Not proved: `_begin(0o4444)` on the radio** (`set listen /
+auto_ack / retries / open_rx_pipe × 6`: that it ends normally and touches nothing but `x`'s own radio and
+address attributes — the same leg that is open for the join, see above); `C17_release_closed_partial` takes it
+as a hypothesis **about the one state this run produces** and is instantiated completely on `lookEx`, the
+leg being discharged there by kernel evaluation of the model.
+-/
+
+namespace Nrf.Props.C17
+open Nrf Nrf.Net Nrf.Spec Nrf.Proofs Nrf.Net.Join
+
+/-- **C17, closed system: the master handles a release frame it has received** (any number of nodes; every
+    node off the call stack has an empty RX FIFO).  The master — RF24Mesh, ID 0, address 0, `_do_dhcp`
+    clear, listening — finds a release frame (type 197, from address `ax ≠ 0`) as the only payload in its
+    RX FIFO.  `update()` returns 197; the master's node object is `freed …`: **the table is
+    `Mesh.releaseScan t ax t`** and `frame_buf` the frame, nothing else; nothing is transmitted (the world
+    changes by the one `read()` only); the master listens on, its RX FIFO empty.  With C16's invariant on
+    `t`: exactly the lease on `ax` is gone. -/
+theorem C17_release_master_closed (f : Nat) (sm : NetState) (L : LinkCfg) (Pm : List Bytes) (p fid r ax : Nat)
+    (pk : Bytes)
+    (hcur : sm.cur < sm.nodes.length) (hclosed : sm.closed = true)
+    (hfuel : sm.nodes.length + 2 ≤ f) (hquiet : Quiet sm) (hWf : sm.drv.Wf)
+    (hN : NodeRadio L Pm true true 0x3E sm.node.rf sm.drv.radio)
+    (harr : sm.node.arrivals = []) (hfifo : sm.drv.radio.rxFifo = [{ pipe := p, data := pk }]) (hp : p ≤ 5)
+    (hpk : (relFrame fid r ax).pack = .ok pk)
+    (hax : ax < 4096) (hfid : fid < 65536) (hr : r < 256) (haxv : isValid ax = true) (hax0 : ax ≠ 0)
+    (hkind : sm.node.kind = .meshMaster) (hid : sm.node.nodeId = 0) (haddr0 : sm.node.a.addr = 0)
+    (hret : sm.node.retSysMsg = true) (hdo : sm.node.doDhcp = false) :
+    (∃ D1 : DrvState,
+      Nrf.Net.nexec (nodeUpdate (f + 4)) sm =
+        (.ok MESH_ADDR_RELEASE, (sm.afterRf D1).putNode (freed sm.node D1.d fid r ax)) ∧
+      (freed sm.node D1.d fid r ax).dhcp = (Mesh.releaseScan sm.node.dhcp ax sm.node.dhcp).1 ∧
+      DrvFrame sm.drv D1 ∧ NodeRadio L Pm true true 0x3E D1.d D1.radio ∧ D1.radio.rxFifo = []) ∧
+    (Inv sm.node.dhcp →
+      Inv (Mesh.releaseScan sm.node.dhcp ax sm.node.dhcp).1 ∧
+      ∀ j b, (j, b) ∈ (Mesh.releaseScan sm.node.dhcp ax sm.node.dhcp).1 ↔ b ≠ ax ∧ (j, b) ∈ sm.node.dhcp) := by
+  obtain ⟨D1, h1, h2, h3, h4⟩ := master_release f sm L Pm p fid r ax pk hcur hclosed hfuel hquiet hWf hN harr hfifo hp
+    hpk hax hfid hr haxv hax0 hkind hid haddr0 hret hdo
+  refine ⟨⟨D1, h1, rfl, h2, h3, h4⟩, fun hinv => ?_⟩
+  have h := Nrf.Props.C16.C16_release hinv { table := sm.node.dhcp } rfl 0 true hax0
+  rw [← Nrf.Proofs.MeshK.release_table sm.node.dhcp _ 0 true hax0 false] at h
+  exact ⟨h.1, h.2.1⟩
+
+example : (Mesh.releaseScan [(7, 1), (9, 4)] 1 [(7, 1), (9, 4)]).1 = [(9, 4)] := by decide
+
+/-- **C17, closed system: `release_address()` of a connected node up to `_begin(0o4444)`** (two nodes,
+    loss-free, ONE schedule).  From a `Conn` state in which the master's radio did not just accept the very
+    release packet: the release frame is written in one acknowledged hop — `_write` returns `True` in the
+    state `s1`, of which `RelSent` holds: the frame waits in the master's RX FIFO on pipe `px`, the master's
+    node object and every third radio untouched, `x` listening again with an empty RX FIFO, its node object
+    changed in `frame_buf` only — and the whole call equals `_begin(0o4444)` from `s1`, `True` if that
+    ends normally (an exception of `_begin` propagates). -/
+theorem C17_release_write_closed (s : NetState) (L : LinkCfg) (Pm Px : List Bytes) (m x px ax : Nat)
+    (Am Ax pk : Bytes) (C : Conn L Pm Px m x px ax Am Ax s)
+    (hpk : (relFrame (s.nodeAt x).frameBuf.header.frameId (s.nodeAt x).frameBuf.header.reserved ax).pack = .ok pk)
+    (hdupm : ∀ pid, (s.radioAt m).lastRx ≠ some { pid := pid, addr := Am, data := pk }) :
+    ∃ s1 : NetState, RelSent L Pm Px m x px ax Am pk s s1 ∧
+      Nrf.Net.nexec (nodeWrite F 0 TX_NORMAL) (s.withFrame
+        (relFrame (s.nodeAt x).frameBuf.header.frameId (s.nodeAt x).frameBuf.header.reserved ax)) = (.ok true, s1) ∧
+      Nrf.Net.nexec meshRelease s =
+        match Nrf.Net.nexec (begin NETWORK_DEFAULT_ADDR) s1 with
+        | (.error e, s2) => (.error e, s2)
+        | (.ok _, s2) => (.ok true, s2) :=
+  release_write s L Pm Px m x px ax Am Ax pk C hpk hdupm
+
+/-- **C17, closed system: `release_address()` of a connected node, partial** — the write leg and the control
+    flow proved, and **exactly the one unproved leg as a hypothesis about the state this run produces**:
+    `Hb` — for the state `s1` that the release frame's `_write` *of this run* ends in (determined by `s`;
+    `RelSent` is what is proved about it), `_begin(0o4444)` ends normally in a state satisfying `P4`.  Then
+    `release_address()` returns `True` in a state satisfying `P4`.  (With `P4 := Released …` the master's
+    next `update()` frees the lease: `C17_release_master_turn_closed`.) -/
+theorem C17_release_closed_partial (s : NetState) (L : LinkCfg) (Pm Px : List Bytes) (m x px ax : Nat)
+    (Am Ax pk : Bytes) (P4 : NetState → Prop) (C : Conn L Pm Px m x px ax Am Ax s)
+    (hpk : (relFrame (s.nodeAt x).frameBuf.header.frameId (s.nodeAt x).frameBuf.header.reserved ax).pack = .ok pk)
+    (hdupm : ∀ pid, (s.radioAt m).lastRx ≠ some { pid := pid, addr := Am, data := pk })
+    (Hb : ∀ s1, Nrf.Net.nexec (nodeWrite F 0 TX_NORMAL) (s.withFrame
+        (relFrame (s.nodeAt x).frameBuf.header.frameId (s.nodeAt x).frameBuf.header.reserved ax)) = (.ok true, s1) →
+      RelSent L Pm Px m x px ax Am pk s s1 →
+      ∃ s4, Nrf.Net.nexec (begin NETWORK_DEFAULT_ADDR) s1 = (.ok (), s4) ∧ P4 s4) :
+    ∃ s4, Nrf.Net.nexec meshRelease s = (.ok true, s4) ∧ P4 s4 :=
+  release_closed s L Pm Px m x px ax Am Ax pk P4 C hpk hdupm Hb
+
+/-- **C17, closed system: the master's next `update()` after a release** (two nodes; a top-level call,
+    entered as the driver's `runAs` does: `NetState.turn`).  From a state satisfying `Released` — `x`
+    unassigned (address 0o4444) with an empty RX FIFO, the master untouched with table `t`, listening, the
+    release frame from `ax` waiting in its RX FIFO —: `update()` returns 197, **the master's table is
+    `Mesh.releaseScan t ax t`**, `x`'s node object is untouched; with C16's invariant on `t` and `(i, ax) ∈ t`
+    (the lease `x` held): **no lease for `i` is left**, every lease on another address is kept. -/
+theorem C17_release_master_turn_closed (s4 : NetState) (L : LinkCfg) (Pm : List Bytes) (m x px fid r ax i : Nat)
+    (pk : Bytes) (t : Mesh.Table) (R : Released L Pm m x px pk t s4) (hm : m < 2) (hx : x < 2) (hmx : m ≠ x)
+    (hpx : px ≤ 5) (hpk : (relFrame fid r ax).pack = .ok pk)
+    (hax : ax < 4096) (hfid : fid < 65536) (hr : r < 256) (haxv : isValid ax = true) (hax0 : ax ≠ 0)
+    (hinv : Inv t) (hlease : (i, ax) ∈ t) :
+    ∃ s5, Nrf.Net.nexec (nodeUpdate F) (s4.turn m) = (.ok MESH_ADDR_RELEASE, s5) ∧
+      (s5.nodeAt m).dhcp = (Mesh.releaseScan t ax t).1 ∧ s5.nodeAt x = (s4.turn m).nodeAt x ∧
+      (∀ b, (i, b) ∉ (s5.nodeAt m).dhcp) ∧
+      (∀ j b, b ≠ ax → ((j, b) ∈ (s5.nodeAt m).dhcp ↔ (j, b) ∈ t)) := by
+  obtain ⟨s5, e, hd, hxn⟩ := release_master_turn s4 L Pm m x px fid r ax pk t R hm hx hmx hpx hpk hax hfid hr haxv hax0
+  have h := Nrf.Props.C16.C16_release hinv { table := t } rfl 0 true hax0
+  rw [← Nrf.Proofs.MeshK.release_table t _ 0 true hax0 false] at h
+  obtain ⟨_, w2, _⟩ := Nrf.Props.C16.C16_inv_words hinv
+  refine ⟨s5, e, hd, hxn, ?_, ?_⟩
+  · intro b hb
+    rw [hd] at hb
+    obtain ⟨hne, hmem⟩ := (h.2.1 i b).mp hb
+    exact hne (w2 i b ax hmem hlease)
+  · intro j b hb
+    rw [hd]
+    exact ⟨fun hh => ((h.2.1 j b).mp hh).2, fun hh => (h.2.1 j b).mpr ⟨hb, hh⟩⟩
+
+/-- **full instance on `lookEx`** (master with table `[7 ↦ 0o1, 9 ↦ 0o4]`, node 7 connected at 0o1): every
+    hypothesis of `C17_release_closed_partial` holds there, **the `_begin` leg included** — `Hb` is proved by
+    evaluating the model in the kernel on the run's own state (`relEx1` = the state the release frame's
+    `_write` ends in; `_begin(0o4444)` from it is `.ok ()` and ends in `relEx4`, of which every field of
+    `Released` is checked by `decide +kernel`).  Hence `release_address()` returns `True` on `lookEx`, node 7
+    is back at 0o4444, and the master's next `update()` returns 197 and leaves the table `[9 ↦ 0o4]`: no
+    lease for ID 7.  (`net 2 1 new m master 0 0 ; new x mesh 1 7 ; x renew 1500 ; x release ; m update` on
+    the real code.) -/
+example : ∃ s4 s5, Nrf.Net.nexec meshRelease lookEx = (.ok true, s4) ∧
+    (s4.nodeAt 1).a.addr = NETWORK_DEFAULT_ADDR ∧
+    Nrf.Net.nexec (nodeUpdate F) (s4.turn 0) = (.ok MESH_ADDR_RELEASE, s5) ∧
+    (s5.nodeAt 0).dhcp = [(9, 4)] ∧ (∀ b, (7, b) ∉ (s5.nodeAt 0).dhcp) := by
+  obtain ⟨s4, e4, R⟩ := C17_release_closed_partial lookEx Example.L Example.P0 Example.P1 0 1 1 1
+    [60, 204, 204, 204, 204] [227, 60, 204, 204, 204] relPk
+    (Released Example.L Example.P0 0 1 1 relPk [(7, 1), (9, 4)]) lookEx_conn relPk_eq
+    (by intro pid; rw [show (lookEx.radioAt 0).lastRx = none from rfl]; intro h; cases h)
+    (by
+      intro s1 e _
+      have h1 : s1 = relEx1 := (congrArg Prod.snd e).symm
+      subst h1
+      exact ⟨relEx4, relEx4_begin, relEx4_released⟩)
+  have hinv : Inv [(7, 1), (9, 4)] := by
+    refine ⟨by decide, ?_, ?_, ?_⟩
+    · intro i j a hi hj
+      simp only [List.mem_cons, Prod.mk.injEq, List.mem_nil_iff, or_false] at hi hj
+      omega
+    · intro i a hi
+      simp only [List.mem_cons, Prod.mk.injEq, List.mem_nil_iff, or_false] at hi
+      rcases hi with ⟨_, rfl⟩ | ⟨_, rfl⟩
+      · exact ⟨by decide, [1], by decide, by decide, by decide⟩
+      · exact ⟨by decide, [4], by decide, by decide, by decide⟩
+    · intro i a hi
+      simp only [List.mem_cons, Prod.mk.injEq, List.mem_nil_iff, or_false] at hi
+      omega
+  obtain ⟨s5, e5, hd, _, hno, _⟩ := C17_release_master_turn_closed s4 Example.L Example.P0 0 1 1 0 0 1 7 relPk
+    [(7, 1), (9, 4)] R (by decide) (by decide) (by decide) (by decide) relPk_eq (by decide) (by decide) (by decide)
+    lookEx_conn.axv (by decide) hinv (by decide)
+  exact ⟨s4, s5, e4, R.xaddr, e5, by rw [hd]; decide, hno⟩
+
+end Nrf.Props.C17
+
+/-! ## a message sent to a node ID: master → connected node, closed system
+
+`send(i, type, message)` called at the master for the ID of the node connected at `ax`: the translation ID →
+address is answered by the master's own table (no transmission), the frame goes out in one acknowledged hop
+to pipe 5 of that node, whose next `update()` queues it.  Two nodes, loss-free, ONE schedule, a single frame
+(≤ 24 bytes) of a user type 0..127.  `send()` from a *non-master* node to an ID (lookup exchange first, then a
+routed write through the master) is **not** covered.
+-/
+
+namespace Nrf.Props.C17
+open Nrf Nrf.Net Nrf.Spec Nrf.Proofs Nrf.Net.Join
+
+/-- **C17, closed system: `send(i, t, msg)` at the master reaches the node that holds the lease of ID `i`,
+    partial.**  The master `m` (RF24Mesh, ID 0, address 0, running, listening; its table maps `i ≠ 0` to
+    `ax`), the node `x` listening on the six addresses of `ax` with an empty RX FIFO and not about to see a
+    duplicate, no third radio listening, `msg` of at most 24 bytes within `max_message_length`, user type
+    `t ≤ 127`: **`send()` returns `True`**, nothing was asked on the air, the frame (`sendFrame`: from 0, to
+    `ax`, a new frame id, type `t`, body `msg`) is stored — once — on pipe 5 of `x`'s radio; `x`'s node object
+    and the master's table are unchanged.  Partial: sender = master only, level-1 destination only, no
+    fragmentation. -/
+theorem C17_send_by_id_closed_partial (s : NetState) (L : LinkCfg) (Pm Px : List Bytes) (m x ax i t : Nat)
+    (Ax msg : Bytes)
+    (hlen : s.nodes.length = 2) (hm : m < 2) (hx : x < 2) (hmx : m ≠ x)
+    (hcur : s.cur = m) (hact : s.active = [m]) (hclosed : s.closed = true) (hfaults : s.w.faults = [])
+    (hridm : s.ridAt m < s.w.radios.length) (hridne : s.ridAt m ≠ s.ridAt x)
+    (hothers : ∀ j, j ≠ s.ridAt m → j ≠ s.ridAt x → (s.w.radio j).rxMode = false)
+    (hNm : NodeRadio L Pm true true 0x3E (s.nodeAt m).rf (s.radioAt m))
+    (hNx : NodeRadio L Px true true 0x3E (s.nodeAt x).rf (s.radioAt x))
+    (hfx : (s.radioAt x).rxFifo = [])
+    (hAx : Px[5]? = some Ax) (hltx : ∀ q, q < 5 → Px[q]? ≠ some Ax)
+    (hkind : (s.nodeAt m).kind = .meshMaster) (hid : (s.nodeAt m).nodeId = 0) (hmaddr : (s.nodeAt m).a.addr = 0)
+    (hmaxl : msg.length ≤ (s.nodeAt m).maxMessageLength) (hmsg : msg.length ≤ MAX_FRAG_SIZE)
+    (hml2p : logi2phys (s.nodeAt m).a ax TX_NORMAL = (ax, 5, false))
+    (hmcfg : pipeAddress (s.nodeAt m).cfg ax 5 = .ok Ax)
+    (hax : ax < 4096) (haxv : isValid ax = true) (hax0 : ax ≠ 0)
+    (hi0 : i ≠ 0) (hlease : MeshProtocol.tableAddress (s.nodeAt m).dhcp i = (ax : Int)) (ht : t ≤ 127)
+    (hdupx : NotDupFrame (s.radioAt x) (sendFrame s.nextId ax t msg)) :
+    ∃ s2 pk pid, Nrf.Net.nexec (meshSend i (t : Int) msg) s = (.ok true, s2) ∧
+      (sendFrame s.nextId ax t msg).pack = .ok pk ∧
+      s2.radioAt x = (s.radioAt x).withRx [{ pipe := 5, data := pk }] { pid := pid, addr := Ax, data := pk } ∧
+      s2.nodeAt x = s.nodeAt x ∧ (s2.nodeAt m).dhcp = (s.nodeAt m).dhcp ∧ s2.cur = m ∧ s2.active = [m] ∧
+      s2.nodes.length = 2 ∧ s2.closed = true ∧ s2.w.radios.length = s.w.radios.length ∧
+      (s2.radioAt m).rxFifo = (s.radioAt m).rxFifo :=
+  send_by_id_closed s L Pm Px m x ax i t Ax msg hlen hm hx hmx hcur hact hclosed hfaults hridm hridne hothers hNm hNx
+    hfx hAx hltx hkind hid hmaddr hmaxl hmsg hml2p hmcfg hax haxv hax0 hi0 hlease ht hdupx
+
+/-- **C17, closed system: the addressed node's next `update()` queues the frame.**  From a state as
+    `C17_send_by_id_closed_partial` leaves it (the frame on pipe 5 of `x`'s radio, the master's RX FIFO
+    empty), `x` — not of the master class, address `ax`, queue with room and without a frame of the same
+    origin, id and type — runs `update()` as a top-level call (`NetState.turn x`): it returns `t`, **the
+    queue has gained exactly the frame** (`from_node` 0, `to_node` `ax`, type `t`, body `msg`), the RX FIFO is
+    empty. -/
+theorem C17_send_queued_closed (s2 : NetState) (L : LinkCfg) (Px : List Bytes) (m x ax fid t pid : Nat)
+    (Ax msg pk : Bytes) (Rx : Radio)
+    (hlen : s2.nodes.length = 2) (hm : m < 2) (hx : x < 2) (hmx : m ≠ x)
+    (hcur : s2.cur = m) (hclosed : s2.closed = true)
+    (hridx : s2.ridAt x < s2.w.radios.length)
+    (hNx : NodeRadio L Px true true 0x3E (s2.nodeAt x).rf Rx)
+    (hradx : s2.radioAt x = Rx.withRx [{ pipe := 5, data := pk }] { pid := pid, addr := Ax, data := pk })
+    (hfm : (s2.radioAt m).rxFifo = [])
+    (hkind : (s2.nodeAt x).kind ≠ .meshMaster) (hxaddr : (s2.nodeAt x).a.addr = ax)
+    (harrx : (s2.nodeAt x).arrivals = [])
+    (hroom : ((s2.nodeAt x).queue.frames.length : Int) < (s2.nodeAt x).queue.maxSize)
+    (hnew : ∀ g ∈ (s2.nodeAt x).queue.frames, ¬ (g.header.fromNode = 0 ∧ g.header.frameId = fid ∧ g.header.ty = t))
+    (hax : ax < 4096) (haxv : isValid ax = true) (hfid : fid < 65536) (ht : t ≤ 127)
+    (hmsg : msg.length ≤ MAX_FRAG_SIZE) (hpk : (sendFrame fid ax t msg).pack = .ok pk) :
+    ∃ s3, Nrf.Net.nexec (nodeUpdate F) (s2.turn x) = (.ok t, s3) ∧
+      (s3.nodeAt x).queue.frames = (s2.nodeAt x).queue.frames ++ [sendFrame fid ax t msg] ∧
+      (s3.radioAt x).rxFifo = [] :=
+  send_queued_closed s2 L Px m x ax fid t pid Ax msg pk Rx hlen hm hx hmx hcur hclosed hridx hNx hradx hfm hkind
+    hxaddr harrx hroom hnew hax haxv hfid ht hmsg hpk
+
+/-- `lookEx` with the master running -/
+def sendEx : NetState := { lookEx with cur := 0, active := [0] }
+
+/-- both theorems instantiated completely and chained on `sendEx` (master with table `[7 ↦ 0o1, 9 ↦ 0o4]`
+    running, node 7 at 0o1): `send(7, 65, [1, 2, 3])` at the master returns `True`, and node 7's next
+    `update()` returns 65 with exactly that message in its queue -/
+example : ∃ s2 s3, Nrf.Net.nexec (meshSend 7 65 [1, 2, 3]) sendEx = (.ok true, s2) ∧
+    Nrf.Net.nexec (nodeUpdate F) (s2.turn 1) = (.ok 65, s3) ∧
+    (s3.nodeAt 1).queue.frames = [sendFrame 4 1 65 [1, 2, 3]] := by
+  have C := lookEx_conn
+  obtain ⟨s2, pk, pid, e, hpk, hrx, hnx, _, hc2, _, hl2, hcl2, hrl2, hfm2⟩ := C17_send_by_id_closed_partial sendEx Example.L
+    Example.P0 Example.P1 0 1 1 7 65 [227, 60, 204, 204, 204] [1, 2, 3] rfl (by decide) (by decide) (by decide) rfl rfl
+    rfl rfl C.ridm C.ridne C.others C.Nm C.Nx C.fx C.pAx C.ltx C.kind C.mid C.maddr (by decide) (by decide) C.ml2p C.mcfg
+    (by decide) C.axv (by decide) (by decide) (by decide) (by decide) (NotDupFrame.of_none rfl)
+  obtain ⟨s3, e3, hq, _⟩ := C17_send_queued_closed s2 Example.L Example.P1 0 1 1 4 65 pid [227, 60, 204, 204, 204]
+    [1, 2, 3] pk (sendEx.radioAt 1) hl2 (by decide) (by decide) (by decide) hc2 hcl2
+    (by show (s2.nodeAt 1).rf.rid < _; rw [hnx, hrl2]; exact C.ridx)
+    (by rw [hnx]; exact C.Nx) hrx (by rw [hfm2]; exact C.fm)
+    (by rw [hnx]; decide) (by rw [hnx]; exact C.xaddr) (by rw [hnx]; exact C.arrx)
+    (by rw [hnx]; decide) (by rw [hnx]; intro g hg; cases hg)
+    (by decide) C.axv (by decide) (by decide) (by decide) hpk
+  refine ⟨s2, s3, e, e3, ?_⟩
+  rw [hq, hnx]
+  rfl
 
 end Nrf.Props.C17
